@@ -242,7 +242,7 @@ def label_scenarios(tier: str) -> List[Dict[str, Any]]:
     k = 0
     for seq in seqs:
         for lab in labs:
-            for withmod in (None, "formula", "num"):
+            for withmod in (None, "formula", "num", "formula13"):
                 for on_mods in (False, True):
                     if withmod is None and on_mods:
                         continue
@@ -263,7 +263,7 @@ def check_label(sc) -> Obligation:
     from peptacular.mass_calc import mass
     from peptacular.proforma.proforma_parser import create_annotation
     from peptacular.proforma.proforma_dataclasses import Mod
-    mod_formula = {"C": 2, "H": 3, "N": 1, "S": 1}
+    mod_formula = {"C": 2, "H": 3, "N": 1, "S": 1} if sc["mod"] != "formula13" else {"C": 1, "H": 3}
 
     c3 = {"seq": sc["seq"], "mods": [["res0", "formula" if sc["mod"] == "formula" else "num", 1]] if sc["mod"] else [], "labels": sc["labels"],
           "adducts": None}
@@ -272,6 +272,8 @@ def check_label(sc) -> Obligation:
         kw = {}
         if sc["mod"] == "formula":
             kw["internal_mods"] = {0: [Mod("Formula:C2H3NS", 1)]}
+        elif sc["mod"] == "formula13":
+            kw["internal_mods"] = {0: [Mod("Formula:[13C2]CH3", 1)]}
         elif sc["mod"] == "num":
             kw["internal_mods"] = {0: [Mod(V("v0"), 1)]}
         if labels:
@@ -298,7 +300,7 @@ def check_label(sc) -> Obligation:
                     cnt = grp.get(el, 0)
                     for aa in sc["seq"]:
                         cnt += O.parse_formula(O.RESIDUES[aa]).get(el, 0)
-                    if sc["on_mods"] and sc["mod"] == "formula":
+                    if sc["on_mods"] and sc["mod"] in ("formula", "formula13"):
                         cnt += mod_formula.get(el, 0)
                     shift = shift + (elm(l, True) - elm(el, sc["mono"])) * cnt
                 # the property speaks of the *neutral* mass; for charged states in average mode the two calculators differ by
@@ -332,7 +334,7 @@ def _el(e, mono):
 def _label_tables(sc):
     """mode B tables (c03.element_tables) with the labels' isotopes and the modification's elements included"""
     from . import c03
-    c3 = {"seq": sc["seq"], "mods": [["res0", "formula", 1]] if sc["mod"] == "formula" else [], "labels": list(sc["labels"]) + ["13C"], "adducts": None}
+    c3 = {"seq": sc["seq"], "mods": [["res0", "formula", 1]] if sc["mod"] in ("formula", "formula13") else [], "labels": list(sc["labels"]) + ["13C"], "adducts": None}
     # make sure S (modification) and every labelled element are symbolic even if absent from the residues
     orig = c03.elements_of
 
@@ -368,6 +370,7 @@ def main(p):
     def build(labels):
         kw = {}
         if sc["mod"] == "formula": kw["internal_mods"] = {0: [Mod("Formula:C2H3NS", 1)]}
+        elif sc["mod"] == "formula13": kw["internal_mods"] = {0: [Mod("Formula:[13C2]CH3", 1)]}
         elif sc["mod"] == "num": kw["internal_mods"] = {0: [Mod(float(model.get("v0", 1.5)), 1)]}
         if labels: kw["isotope_mods"] = [Mod(l, 1) for l in labels]
         return create_annotation(sc["seq"], **kw)
@@ -383,6 +386,7 @@ def main(p):
         for e, l in per_el.items():
             cnt = grp.get(e, 0) + sum(O.parse_formula(O.RESIDUES[aa]).get(e, 0) for aa in sc["seq"])
             if sc["on_mods"] and sc["mod"] == "formula": cnt += {"C": 2, "H": 3, "N": 1, "S": 1}.get(e, 0)
+            if sc["on_mods"] and sc["mod"] == "formula13": cnt += {"C": 1, "H": 3}.get(e, 0)
             shift += (el(l, True) - el(e, sc["mono"])) * cnt
         if abs((lab - plain) - shift) > (1e-5 if (sc["mono"] or (ion, z) == ("p", 0)) else 1e-3):
             problems.append(f"ion {ion} z={z}: labelled-plain = {lab-plain!r}, expected {shift!r}")
